@@ -1,6 +1,6 @@
 Require Extraction.
 Require Import ExtrOcamlBasic.
-From CSL Require Import Base.Prelude Base.U64 Cbor.Head Num.Decimal Num.U64 Num.IntRange Num.BigIntCbor Num.Value Num.C14Model.
+From CSL Require Import Base.Prelude Base.U64 Cbor.Head Num.Decimal Num.U64 Num.IntRange Num.BigIntCbor Num.Value Num.Mint Num.C14Model.
 Extraction Language OCaml.
 Definition keepN : N := N.add 0 0.
 Definition keepZ : Z := Z.add 0 0.
@@ -11,4 +11,5 @@ Extraction "model_c14.ml" keepN keepZ keepNat
   model_biz judge_biz model_bibytes judge_bibytes model_bistr judge_bistr model_biop judge_biop
   model_val judge_val model_val3 judge_val3
   value_new mkValue ma_insert assets_insert ma_new assets_new
-  cls_none cls_div_zero cls_sub_clamps cls_int_min_panic cls_mint_overflow cls_meta_key cls_from_str_range cls_as_negative.
+  cls_none cls_div_zero cls_sub_clamps cls_int_min_panic cls_mint_overflow cls_meta_key cls_from_str_range cls_as_negative cls_mint_dup
+  model_mintv judge_mintv mint_new mint_insert mint_assets_new am_insert name_cmp.
